@@ -14,6 +14,7 @@ import (
 	"fmt"
 	"hash"
 	"math"
+	"math/big"
 	"net/http"
 	"net/http/httptest"
 	"reflect"
@@ -126,6 +127,12 @@ type jwtPlan struct {
 	mseed   uint64
 	post    bool
 	yields  int
+	// 0 = the claim comes from the offset tables above; k > 0: claimExtremes[k-1] instead
+	expX, nbfX, iatX int
+	bearer           int // spelling of the scheme: see bearerSpellings (0 = "Bearer ", or "bearer " when lower)
+	// clients keep using a token: k > 0 = present again the Authorization header an earlier request of the
+	// run was sent with (the k-th candidate), now, instead of a freshly issued token
+	reuse int
 }
 
 func drawJwtPlan(t *simrt.Tape, rotation bool) jwtPlan {
@@ -149,7 +156,52 @@ func drawJwtPlan(t *simrt.Tape, rotation bool) jwtPlan {
 	p.mseed = seedOf(t)
 	p.post = t.Chance(1, 4)
 	p.yields = t.Intn(3)
+	if t.Chance(1, 4) {
+		// extreme / malformed time claims, each claim independently
+		n := len(claimExtremes)
+		switch t.Intn(4) {
+		case 0:
+			p.expX = 1 + t.Intn(n)
+		case 1:
+			p.nbfX = 1 + t.Intn(n)
+		case 2:
+			p.iatX = 1 + t.Intn(n)
+		default:
+			p.expX, p.nbfX, p.iatX = t.Intn(n+1), t.Intn(n+1), t.Intn(n+1)
+		}
+	}
+	if t.Chance(1, 8) {
+		p.bearer = 1 + t.Intn(len(bearerSpellings)-1)
+	}
+	if t.Chance(1, 4) {
+		p.reuse = 1 + t.Intn(4)
+	}
 	return p
+}
+
+// other spellings of the scheme that name the same scheme (RFC 7235: case-insensitive)
+var bearerSpellings = []string{"", "BEARER ", "BeArEr ", "bEARER "}
+
+// limitClaimOverflow: a time claim beyond the range of an int64 second count ends in the finding
+// overflowFinding (first failure wins), so only one run in eight may contain such tokens; in the
+// other runs they are replaced by the largest tame values.
+func limitClaimOverflow(t *simrt.Tape, plans [][]jwtPlan) {
+	if t.Chance(1, 8) {
+		return
+	}
+	for i := range plans {
+		for j := range plans[i] {
+			tameClaims(&plans[i][j])
+		}
+	}
+}
+
+func tameClaims(p *jwtPlan) {
+	for _, x := range []*int{&p.expX, &p.nbfX, &p.iatX} {
+		if *x > 0 && claimExtremes[*x-1].overflow {
+			*x = 1 + (*x-1-firstOverflowExtreme)%firstOverflowExtreme
+		}
+	}
 }
 
 type jwtSecrets struct {
@@ -168,6 +220,7 @@ type builtToken struct {
 	hasNbf    bool
 	hasIat    bool
 	claimKeys []string
+	extremes  []string // names of the extreme time claims used (probes)
 }
 
 // buildToken renders the plan into an Authorization header at issue second nowS.
@@ -189,15 +242,29 @@ func buildToken(p jwtPlan, s jwtSecrets, nowS int64) builtToken {
 		fields = append(fields, fmt.Sprintf("%q:%s", k, lit))
 		bt.claimKeys = append(bt.claimKeys, k)
 	}
-	if p.exp != 0 {
+	extreme := func(claim string, x int) {
+		c := claimExtremes[x-1]
+		fields = append(fields, fmt.Sprintf(`%q:%s`, claim, c.f(nowS)))
+		bt.extremes = append(bt.extremes, c.name)
+	}
+	switch {
+	case p.expX != 0:
+		extreme("exp", p.expX)
+	case p.exp != 0:
 		bt.hasExp, bt.expAt = true, nowS+expOffsets[p.exp]
 		fields = append(fields, fmt.Sprintf(`"exp":%d`, bt.expAt))
 	}
-	if p.nbf != 0 {
+	switch {
+	case p.nbfX != 0:
+		extreme("nbf", p.nbfX)
+	case p.nbf != 0:
 		bt.hasNbf, bt.nbfAt = true, nowS+nbfOffsets[p.nbf]
 		fields = append(fields, fmt.Sprintf(`"nbf":%d`, bt.nbfAt))
 	}
-	if p.iat != 0 {
+	switch {
+	case p.iatX != 0:
+		extreme("iat", p.iatX)
+	case p.iat != 0:
 		bt.hasIat, bt.iatAt = true, nowS+iatOffsets[p.iat]
 		fields = append(fields, fmt.Sprintf(`"iat":%d`, bt.iatAt))
 	}
@@ -274,7 +341,11 @@ func buildToken(p jwtPlan, s jwtSecrets, nowS int64) builtToken {
 		case 0:
 			ns = secret + "x"
 		case 1:
-			ns = secret[:len(secret)-1]
+			if len(secret) == 0 {
+				ns = "\x00"
+			} else {
+				ns = secret[:len(secret)-1]
+			}
 		case 2:
 			ns = strings.ToUpper(secret)
 		default:
@@ -325,9 +396,12 @@ func buildToken(p jwtPlan, s jwtSecrets, nowS int64) builtToken {
 		bt.auth = []string{"Basic ", "Token ", "Bearer", "Bearer  "}[m.next()%4] + tok
 		return bt
 	}
-	if p.lower {
+	switch {
+	case p.bearer > 0:
+		bt.auth = bearerSpellings[p.bearer] + tok
+	case p.lower:
 		bt.auth = "bearer " + tok
-	} else {
+	default:
 		bt.auth = "Bearer " + tok
 	}
 	return bt
@@ -338,30 +412,26 @@ func buildToken(p jwtPlan, s jwtSecrets, nowS int64) builtToken {
 // ---------------------------------------------------------------------------
 
 type jwtVerdict struct {
-	reason   string // "" when the signature verifies; otherwise why the token is no credential at all
-	sigOK    bool
-	under    int   // index of the allowed secret the signature verifies under
-	lo, hi   int64 // the token is valid at second s iff lo <= s < hi
-	claims   map[string]any
-	hasToken bool
-}
-
-func secondsOf(v any) (int64, bool) {
-	n, ok := v.(json.Number)
-	if !ok {
-		return 0, false
-	}
-	f, err := n.Float64()
-	if err != nil {
-		return 0, false
-	}
-	return int64(math.Floor(f)), true
+	reason string // "" when the signature verifies; otherwise why the token is no credential at all
+	sigOK  bool
+	under  int   // index of the allowed secret the signature verifies under
+	lo, hi int64 // the token may be valid at second s only if lo <= s < hi
+	// the token must be valid at second s if mustLo <= s < mustHi (differs from lo, hi only for claims
+	// with a fraction of a second: the second containing the claim instant is left open)
+	mustLo, mustHi int64
+	claims         map[string]any
+	hasToken       bool
+	overflow       string // a time claim whose value is beyond the range of an int64 second count ("" = none)
+	// for probes: where the three claims lie (seconds, saturated); has* = claim present and a NumericDate
+	expS, nbfS, iatS       int64
+	hasExp, hasNbf, hasIat bool
+	malformedClaim         string // a time claim that is no NumericDate
 }
 
 // judgeJWT decides from the header value alone whether it carries an HMAC-signed token under one
 // of the allowed secrets, and the window of seconds in which its time claims hold.
 func judgeJWT(auth string, present bool, allowed []string) jwtVerdict {
-	v := jwtVerdict{lo: math.MinInt64, hi: math.MaxInt64, under: -1}
+	v := jwtVerdict{lo: math.MinInt64, hi: math.MaxInt64, mustLo: math.MinInt64, mustHi: math.MaxInt64, under: -1}
 	if !present || auth == "" {
 		v.reason = "no-token"
 		return v
@@ -412,21 +482,44 @@ func judgeJWT(auth string, present bool, allowed []string) jwtVerdict {
 		v.reason = "bad-signature"
 		return v
 	}
+	zone := func(k string, d *big.Rat) {
+		if v.overflow == "" && new(big.Rat).Abs(d).Cmp(overflowZone) >= 0 {
+			v.overflow = k
+		}
+	}
 	if e, ok := claims["exp"]; ok {
-		if s, ok := secondsOf(e); ok {
-			v.hi = s
+		if d, ok := numericDate(e); ok {
+			// valid at instant t iff t < exp
+			v.hi, v.mustHi = sat(ratCeil(d)), sat(ratFloor(d))
+			v.hasExp, v.expS = true, v.hi
+			zone("exp", d)
 		} else {
-			v.hi = math.MinInt64 // never valid
+			v.hi, v.mustHi = math.MinInt64, math.MinInt64 // never valid
+			v.malformedClaim = "exp"
 		}
 	}
 	for _, k := range []string{"nbf", "iat"} {
 		if e, ok := claims[k]; ok {
-			if s, ok := secondsOf(e); ok {
-				if s > v.lo {
-					v.lo = s
+			if d, ok := numericDate(e); ok {
+				// valid at instant t iff t >= claim
+				lo, mustLo := sat(ratFloor(d)), sat(ratCeil(d))
+				if lo > v.lo {
+					v.lo = lo
 				}
+				if mustLo > v.mustLo {
+					v.mustLo = mustLo
+				}
+				if k == "nbf" {
+					v.hasNbf, v.nbfS = true, lo
+				} else {
+					v.hasIat, v.iatS = true, lo
+				}
+				zone(k, d)
 			} else {
-				v.lo = math.MaxInt64
+				v.lo, v.mustLo = math.MaxInt64, math.MaxInt64
+				if v.malformedClaim == "" {
+					v.malformedClaim = k
+				}
 			}
 		}
 	}
@@ -450,7 +543,7 @@ func (v *jwtVerdict) validSomewhere(a, b int64) bool {
 
 // validThroughout: is the token valid at every second of [a,b]?
 func (v *jwtVerdict) validThroughout(a, b int64) bool {
-	return v.sigOK && v.lo <= a && b < v.hi
+	return v.sigOK && v.mustLo <= a && b < v.mustHi
 }
 
 // ---------------------------------------------------------------------------
@@ -460,14 +553,15 @@ func (v *jwtVerdict) validThroughout(a, b int64) bool {
 type reqKey struct{}
 
 type jwtRec struct {
-	id     int
-	plan   jwtPlan
-	bt     builtToken
-	ran    int
-	th     time.Time
-	seen   map[string]any
-	t0, t1 time.Time
-	status int
+	id         int
+	reusedFrom int // the request whose token is presented again (-1: freshly issued token)
+	plan       jwtPlan
+	bt         builtToken
+	ran        int
+	th         time.Time
+	seen       map[string]any
+	t0, t1     time.Time
+	status     int
 }
 
 type jwtWorld struct {
@@ -507,9 +601,22 @@ func (w *jwtWorld) prepare(p jwtPlan, s func() jwtSecrets) (*jwtRec, *http.Reque
 	if p.think > 0 {
 		r.Sleep(p.think)
 	}
-	rec := &jwtRec{id: len(w.recs), plan: p, seen: map[string]any{}}
+	rec := &jwtRec{id: len(w.recs), plan: p, seen: map[string]any{}, reusedFrom: -1}
 	w.recs = append(w.recs, rec)
 	rec.bt = buildToken(p, s(), time.Now().Unix())
+	if p.reuse > 0 {
+		var earlier []*jwtRec
+		for _, o := range w.recs[:rec.id] {
+			if o.bt.present && o.bt.auth != "" {
+				earlier = append(earlier, o)
+			}
+		}
+		if len(earlier) > 0 {
+			o := earlier[(p.reuse-1)%len(earlier)]
+			rec.bt, rec.reusedFrom = o.bt, o.id
+			r.Probe("jwt-token-presented-again")
+		}
+	}
 	if tgt, ok := alignTarget(p, rec.bt); ok {
 		if d := time.Until(tgt); d > 0 {
 			r.Sleep(d)
@@ -549,18 +656,91 @@ func failClassAccepted(v *jwtVerdict) string {
 	case "bad-signature":
 		return "jwt-accepted-bad-signature"
 	}
+	if v.sigOK && v.malformedClaim != "" {
+		return "jwt-accepted-time-claim-not-a-number"
+	}
 	return "jwt-accepted-outside-validity"
 }
 
+// overflowFinding: a time claim whose value lies beyond the range of an int64 second count (MaxInt64,
+// 2^63, 1e19, 1e400, ...) is converted by golang-jwt with a float64 -> int64 conversion that is out of
+// range: an nbf / iat in the unreachable future counts as long past (token ACCEPTED), an exp in the
+// unreachable future counts as long past too (valid token REJECTED).
+const (
+	overflowAccepted = "jwt-time-claim-overflow-accepted"
+	overflowRejected = "jwt-time-claim-overflow-rejected"
+)
+
+// overflowClass: the finding class for a wrong verdict on a token with such a claim ("" = not that case).
+func overflowClass(v *jwtVerdict, accepted bool) string {
+	if !v.sigOK || v.overflow == "" {
+		return ""
+	}
+	if accepted {
+		return overflowAccepted
+	}
+	return overflowRejected
+}
+
+func finding(r *simrt.Run, class, format string, a ...any) {
+	if masked[class] {
+		r.Probe("masked-finding-" + class)
+		return
+	}
+	r.Fail(class, format, a...)
+}
+
+// probeTimeClaims: coverage of the time-claim dimensions.
+func probeTimeClaims(r *simrt.Run, bt *builtToken, v *jwtVerdict, nowS int64) {
+	for _, n := range bt.extremes {
+		r.Probe("jwt-time-claim-extreme-" + n)
+	}
+	if !v.sigOK {
+		return
+	}
+	if len(bt.extremes) > 0 && v.under == 1 {
+		r.Probe("jwt-extreme-time-claim-under-previous-secret")
+	}
+	if v.hasExp && v.hasIat && v.expS <= nowS && v.iatS > nowS {
+		r.Probe("jwt-claims-exp-past-iat-future")
+	}
+	if v.hasNbf && v.hasIat && v.nbfS > nowS && v.iatS > nowS {
+		r.Probe("jwt-claims-nbf-and-iat-future")
+	}
+	if v.hasExp && v.hasNbf && v.hasIat {
+		r.Probe("jwt-claims-all-three-time-claims")
+	}
+	if v.hasExp && (v.hasNbf && v.expS <= v.nbfS || v.hasIat && v.expS <= v.iatS) {
+		r.Probe("jwt-claims-exp-not-after-nbf-or-iat")
+	}
+	if v.malformedClaim != "" {
+		r.Probe("jwt-time-claim-not-a-number-" + v.malformedClaim)
+	}
+	if v.overflow != "" {
+		r.Probe("jwt-time-claim-in-overflow-zone-" + v.overflow)
+	}
+	if v.lo != v.mustLo || v.hi != v.mustHi {
+		r.Probe("jwt-time-claim-with-fraction")
+	}
+}
+
 func describe(rec *jwtRec, v *jwtVerdict) string {
+	kind := fkNames[rec.plan.kind]
+	if rec.reusedFrom >= 0 {
+		kind = fmt.Sprintf("token of request %d presented again", rec.reusedFrom)
+	}
 	return fmt.Sprintf("request %d (%s, signer %d, auth %q; verifier: reason=%q sigOK=%v window=[%d,%d)) sent %s returned %s",
-		rec.id, fkNames[rec.plan.kind], rec.plan.signer, rec.bt.auth, v.reason, v.sigOK, v.lo, v.hi,
+		rec.id, kind, rec.plan.signer, rec.bt.auth, v.reason, v.sigOK, v.lo, v.hi,
 		rec.t0.UTC().Format("15:04:05.000000000"), rec.t1.UTC().Format("15:04:05.000000000"))
 }
 
 func (w *jwtWorld) probeOutcome(rec *jwtRec, v *jwtVerdict, accepted bool) {
 	r := w.r
 	r.Probe("oracle")
+	probeTimeClaims(r, &rec.bt, v, sec(rec.t0))
+	if rec.plan.bearer > 0 {
+		r.Probe("jwt-scheme-in-other-case")
+	}
 	if accepted {
 		r.Probe("jwt-accepted")
 		if v.under == 1 {
@@ -596,15 +776,27 @@ func jwtAuthorize(r *simrt.Run, tier string) {
 	t := r.Tape
 	w := &jwtWorld{r: r}
 	g := &prng{s: seedOf(t)}
+	curForm, prevForm := weighted(t, 6, 1, 1, 1), weighted(t, 6, 1, 1, 1)
 	sc := jwtSecrets{
-		cur:      "cur-" + g.text(4+int(g.next()%30)),
+		cur:      secretOf(g, curForm, "cur-"),
 		retired:  "old-" + g.text(4+int(g.next()%30)),
 		next:     "nxt-" + g.text(8),
 		attacker: "evil-" + g.text(4+int(g.next()%30)),
 	}
 	withPrev := t.Bool()
 	if withPrev {
-		sc.prev = "prv-" + g.text(4+int(g.next()%30))
+		sc.prev = secretOf(g, prevForm, "prv-")
+		if prevForm != sfUsual {
+			r.Probe("jwt-previous-secret-" + sfNames[prevForm])
+		}
+	}
+	if curForm != sfUsual {
+		r.Probe("jwt-current-secret-" + sfNames[curForm])
+	}
+	if t.Chance(1, 12) {
+		// a server (mis)configured with the empty secret: the statement still holds with "" as the current secret
+		sc.cur = ""
+		r.Probe("jwt-current-secret-empty")
 	}
 	withCallback := t.Chance(1, 3)
 	nTasks, perTask := jwtSizes(t, tier)
@@ -614,6 +806,7 @@ func jwtAuthorize(r *simrt.Run, tier string) {
 			plans[i] = append(plans[i], drawJwtPlan(t, false))
 		}
 	}
+	limitClaimOverflow(t, plans)
 	var opts []handler.AuthorizeOption
 	if withPrev {
 		opts = append(opts, handler.WithPrevSecret(sc.prev))
@@ -694,6 +887,11 @@ func (w *jwtWorld) checkAuthorize(rec *jwtRec, rw *httptest.ResponseRecorder, al
 	}
 	if rec.ran == 1 {
 		if !v.validSomewhere(s0, sec(rec.th)) {
+			if cls := overflowClass(&v, true); cls != "" {
+				finding(r, cls, "%s: the protected handler RAN (at %s) although the token's %s claim lies in the (unreachable) future",
+					describe(rec, &v), rec.th.UTC().Format("15:04:05.000000000"), v.overflow)
+				return
+			}
 			r.Fail(failClassAccepted(&v), "%s: the protected handler RAN (at %s) although the request carries no credential valid in that interval",
 				describe(rec, &v), rec.th.UTC().Format("15:04:05.000000000"))
 			return
@@ -732,6 +930,11 @@ func (w *jwtWorld) checkAuthorize(rec *jwtRec, rw *httptest.ResponseRecorder, al
 		return
 	}
 	if v.validThroughout(s0, s1) {
+		if cls := overflowClass(&v, false); cls != "" {
+			finding(r, cls, "%s: token verifies under allowed secret #%d and its time claims hold (%s lies beyond the range of an int64 second count), but it got 401",
+				describe(rec, &v), v.under, v.overflow)
+			return
+		}
 		r.Fail("jwt-valid-rejected", "%s: token verifies under allowed secret #%d and its time claims hold during the whole call, but it got 401",
 			describe(rec, &v), v.under)
 	}
@@ -782,6 +985,7 @@ func jwtRotation(r *simrt.Run, tier string) {
 			plans[i] = append(plans[i], drawJwtPlan(t, true))
 		}
 	}
+	limitClaimOverflow(t, plans)
 	epoch := 0
 	view := func() jwtSecrets {
 		s := jwtSecrets{cur: secrets[epoch], next: secrets[epoch+1], attacker: attacker, retired: attacker}
@@ -847,12 +1051,20 @@ func jwtRotation(r *simrt.Run, tier string) {
 				}
 				s0, s1 := sec(rec.t0), sec(rec.t1)
 				if accepted && !v.validSomewhere(s0, s1) {
+					if cls := overflowClass(&v, true); cls != "" {
+						finding(r, cls, "%s: ParseToken(cur=%q, prev=%q) ACCEPTED a token whose %s claim lies in the (unreachable) future", describe(rec, &v), cfg.cur, cfg.prev, v.overflow)
+						continue
+					}
 					cls := failClassAccepted(&v)
 					r.Fail("parser-"+cls[len("jwt-"):], "%s: ParseToken(cur=%q, prev=%q) ACCEPTED a request that carries no credential valid in that interval",
 						describe(rec, &v), cfg.cur, cfg.prev)
 					return
 				}
 				if !accepted && v.validThroughout(s0, s1) {
+					if cls := overflowClass(&v, false); cls != "" {
+						finding(r, cls, "%s: ParseToken(cur=%q, prev=%q) rejected (%v) a token whose time claims hold (%s lies beyond the range of an int64 second count)", describe(rec, &v), cfg.cur, cfg.prev, err, v.overflow)
+						continue
+					}
 					r.Fail("parser-valid-rejected", "%s: ParseToken(cur=%q, prev=%q) rejected (%v) a token that verifies under allowed secret #%d with valid time claims",
 						describe(rec, &v), cfg.cur, cfg.prev, err, v.under)
 					return
